@@ -63,6 +63,14 @@ namespace
                 std::string body(n, char('a' + idx));
                 w.send(Http::Code::Ok, body);
             }
+            else if (r == "/after-the-stall/streamed")
+            {
+                // answered as a stream flushed on the worker thread: each flush writes from where it is called
+                auto st = w.stream(Http::Code::Ok);
+                st << "/after-" << Http::flush;
+                st << "the-stall/" << Http::flush;
+                st << "streamed" << Http::ends;
+            }
             else if (r.rfind("/busy/", 0) == 0)
             {
                 net::sleep_ms(atoi(r.c_str() + 6)); // keeps the (single) worker away from its sockets
@@ -142,6 +150,11 @@ namespace verif
         if (coincide)
         {
             rep.label("release-coincides-with-a-new-request-on-A");
+            if ((sizes[0] / 1024) % 4 == 0)
+            {
+                rep.label("that-request-answered-as-a-stream-flushed-on-the-worker");
+                cfg += " (answered as a flushed stream)";
+            }
             cfg += "; at the release A also sends a new request while the worker is busy for 150 ms";
         }
         g_pol.target_fd        = -1;
@@ -206,8 +219,10 @@ namespace verif
         long attempts = g_pol.attempts_blocked.load();
         bool blocked  = g_pol.saw_eagain.load();
         g_pol.released = true;
+        // (half of those, by the size again: the new request is answered as a stream flushed on the worker thread)
+        const std::string after = (sizes[0] / 1024) % 4 == 0 ? "/after-the-stall/streamed" : "/after-the-stall";
         if (coincide)
-            net::send_all(a, "GET /after-the-stall HTTP/1.1\r\nHost: x\r\n\r\n");
+            net::send_all(a, "GET " + after + " HTTP/1.1\r\nHost: x\r\n\r\n");
         // resume reading: everything pending must arrive, in order
         std::string carry;
         for (unsigned i = 0; i < k && a_err.empty(); ++i)
@@ -225,7 +240,7 @@ namespace verif
             std::string err;
             if (!net::read_message(a, carry, true, msg, 8000, err))
                 a_err = "the answer to the request A sent when it resumed reading: " + err;
-            else if (msg.status != 200 || msg.body != "/after-the-stall")
+            else if (msg.status != 200 || msg.body != after)
                 a_err = "the answer to the request A sent when it resumed reading is wrong (status " + std::to_string(msg.status) + ")";
         }
         ::close(a);
